@@ -8,7 +8,7 @@ from .C02 import aes_tables
 
 META = {
     'title': 'invertibility: finite component pairs composed exhaustively, term-level inverses (MIX, _L, rol/ror), enc/dec mirror of round sequences',
-    'expected_min': 40,
+    'expected_min': 141,
     'exhaustive': True,
     'explanation': 'Tables folded from the AST are composed over their whole (finite) domain: AES S-box pair, ShiftRows pair, MixColumns x '
                    'InvMixColumns = I over GF(2^8), DES IP/IPinv, eight Serpent S-box pairs, Serpent IP/FP, Salsa20/ChaCha index maps, Threefish '
